@@ -32,7 +32,8 @@ def expand_request(vars_aurel):
     table = {'alpha': ['alp'], 'betaup3': ['betax', 'betay', 'betaz'],
              'gammadown3': ['gxx', 'gxy', 'gxz', 'gyy', 'gyz', 'gzz'],
              'rho0': ['rho'], 'Ktrace': ['trK'],
-             'velup3': ['vel[0]', 'vel[1]', 'vel[2]']}
+             'velup3': ['vel[0]', 'vel[1]', 'vel[2]'], 'velx': ['vel[0]'],
+             'vely': ['vel[1]'], 'velz': ['vel[2]']}
     out = []
     for v in vars_aurel:
         for e in table.get(v, [v]):
@@ -292,6 +293,29 @@ def build_tasks(tier):
         tasks.append((spec, reqs, 'sorted', False,
                       (f"F4:restarts={nres}:split={int(split)}",
                        f"layout={int(grouped)}{int(proc)}")))
+    # F6: naming variants (' m=0' in dataset keys, '.xyz' in file names,
+    #     'c=0' on a single chunk, '.file_0' suffix on a single process)
+    for (grouped, proc), variant in itertools.product(
+            LAYOUTS, [dict(with_m=True), dict(xyz='pre'), dict(xyz='post'),
+                      dict(always_c=True), dict(with_m=True, xyz='post',
+                                                always_c=True)]):
+        for cuts in ((1, 1, 1), (2, 1, 2)):
+            shape = (5, 6, 4)
+            spec = base_spec('sim', grouped, proc, 2, {0: shape},
+                             [{'its': {0: r0(0, 1, 2)},
+                               'boxes': {0: etgen.tensor_boxes(shape, cuts)}}],
+                             variables=['alp', 'betax', 'betay', 'betaz',
+                                        'rho', 'vel[0]', 'vel[1]', 'vel[2]'],
+                             **variant)
+            tasks.append((spec, [(['alpha', 'betaup3', 'rho0', 'velup3'],
+                                  r0(2, 0), 0, -1, {}),
+                                 (['velx', 'betaz'], r0(1), 0, 0,
+                                  {'split_per_it': True})], 'sorted',
+                          # 'c=0' on a single chunk is not a layout Carpet
+                          # writes: exact or exception
+                          bool(variant.get('always_c')) and cuts == (1, 1, 1),
+                          (f"F6:{sorted(variant)}:cuts={cuts}",
+                           f"layout={int(grouped)}{int(proc)}")))
     # F5: reading from checkpoints (every variable, time levels 0 and 1)
     shapes5 = {0: (6, 5, 4), 1: (4, 6, 5)}
     for (grouped, proc), cuts in itertools.product(
